@@ -212,6 +212,19 @@ def _pars_entry(ex, path, args, kwargs, node, fn):
 LIB["pars_entry"] = _pars_entry
 from . import unitmaps as _UM
 CONTRACTS = prior_contracts() + _UM.contracts(PROPERTY)
+
+# `_validate_model` (above it enters JokerPrior.__init__ as a callee model): a pymc Model handed in is the one returned; anything else that is not
+# None never comes back (the TypeError is the only way out).  The `model is None` branch depends on pymc's context stack and stays assumed.
+validate_model = [
+    Contract(PR + "_validate_model", PROPERTY, params={"model": lambda ex, path, n: Obj("pymc.Model", {"named_vars": PyDict()}, ident="model")},
+             cases=[{"_name": "a-pymc-Model"}], ensures={"the-given-model-is-returned": "result is model"}),
+    Contract(PR + "_validate_model", PROPERTY, params={"model": lambda ex, path, n: Obj("dict-like-not-a-Model", {"named_vars": PyDict()}, ident="model")},
+             cases=[{"_name": "not-a-Model"}], ensures={"never-returned-as-a-model": "False"}),
+]
+for _c in validate_model:
+    _c.callees = {}
+    _c.lib = {"pymc.Model": lambda ex, path, args, kwargs, node, fn: Obj("pymc.Model", {"named_vars": PyDict()}, ident=f"fresh-model@{node.lineno}")}
+CONTRACTS += validate_model
 CALLEES = {PR + "_validate_model": validate_model_callee,
            PR + "JokerPrior.n_offsets": n_offsets_prop, "JokerPrior.n_offsets": n_offsets_prop,
            PR + "JokerPrior.par_names": par_names_prop, "JokerPrior.par_names": par_names_prop}
